@@ -377,6 +377,7 @@ func Run(r *common.Run) error {
 		}
 		r.Extra["panic_skeletons"] = len(sk)
 		r.Extra["panic_allow_listed_sites"] = trusted
+		r.Notes = append(r.Notes, fmt.Sprintf("C19_no_panic_skel / C19_payload_code_never_panics are statements about the panic skeletons after removing %d partial operations accepted through harness/c19/allow.txt (each with a written justification) and the operations harness/c19/arith.go derives to be in range on this tree (listed in Generated/C19.lean)", trusted))
 	}
 
 	// corpus first
